@@ -184,7 +184,7 @@ def call_loader(loader: str, d: Path, variant: dict):
 
 VARIANTS = {
     'lammps': [
-        {}, {'temperature': 500}, {'time_step': 2.0}, {'type_mapping': {'Li': 'Na', 'S': 'Se'}},
+        {}, {'temperature': 500}, {'time_step': 2.0}, {'type_mapping': {'LI': 'Na', 'S': 'Se'}}, {'type_mapping': {'LI': 'K', 'S': 'Se'}}, {'type_mapping': {'LI': 'Na', 'S': 'Se', 'X': 'O'}},
         {'constant_lattice': False}, {'atom_style': 'charge'}, {'coords_format': 'XYZ'},
     ],
     'vasprun': [{}, {'constant_lattice': False}, {'exception_on_bad_xml': False}, {'parse_dos': False}],
